@@ -106,16 +106,28 @@ def corr_influence_args(res, tier, rng):
                              {"line": l})
 
 
-def commuting_case(rng, tier, force=None):
+def commuting_case(rng, tier, force=None, force_shape=None):
     import oqupy
     from . import cases
     d = rng.choice([2, 2, 3] if tier == "quick" else [2, 3, 3, 4])
     n = rng.randrange(2, {2: 5, 3: 4, 4: 3}[d])
     ev = rng.sample([k / 4 for k in range(-6, 7)], d)
     rotated = rng.random() < 0.35
+    if force_shape == "rotated":
+        rotated = True
+    elif force_shape == "repeated":
+        # a repeated eigenvalue of the coupling operator (several index pairs share one class)
+        d = 3
+        n = min(n, 3)
+        ev = [1.0, 1.0, 2.0]
     energies = [rng.uniform(-2, 2) for _ in range(d)]
+    if force_shape == "repeated":
+        # the Bath picks its own basis inside the degenerate eigenspace: keep H degenerate there
+        # too, so that the propagators are diagonal in ANY eigenbasis of the coupling operator
+        # (the hypothesis of commuting_collapse)
+        energies[1] = energies[0]
     w = rng.uniform(0.5, 2.0)
-    timedep = rng.random() < 0.3
+    timedep = rng.random() < 0.3 and force_shape is None
     v = cases.rand_unitary(rng, d) if rotated else np.eye(d, dtype=complex)
     coupling = v @ np.diag(np.array(ev, dtype=complex)) @ v.conj().T
     if rotated:
@@ -195,7 +207,8 @@ def corr_closed_form(res, tier, rng):
     for i in range(ncase):
         # the first two cases are always finite-mode baths (frequencies commensurate with the
         # time step, then incommensurate); the rest draw the bath kind at random
-        case = commuting_case(rng, tier, force={0: "commensurate", 1: "incommensurate"}.get(i))
+        case = commuting_case(rng, tier, force={0: "commensurate", 1: "incommensurate"}.get(i),
+                              force_shape={3: "repeated", 5: "rotated"}.get(i))
         n = case["n"]
         t = cases.make_tempo(case, unique=bool(i % 2))
         par = t._parameters
@@ -293,7 +306,7 @@ def search(res):
                          {"case": case["desc"], "dkmax": kc, "add_correlation_time": tau,
                           "difference_to_full_memory": err})
     for i in range(8):
-        case = commuting_case(rng, "quick")
+        case = commuting_case(rng, "quick", force_shape={1: "rotated", 3: "repeated"}.get(i))
         case["dkmax"], case["tau"] = None, None
         case["desc"]["dkmax"] = None
         corr = case["correlations"]
@@ -305,12 +318,13 @@ def search(res):
         h = v.conj().T @ case["system"].hamiltonian @ v
         en = np.real(np.diag(h))
         rho_e = v.conj().T @ case["rho0"] @ v
+        unique = bool(i % 2)       # degeneracy reduction must not matter, also in rotated bases
         for api in ("tempo", "pt"):
             if api == "tempo":
-                states = cases.make_tempo(case, epsrel=1e-10).compute(
+                states = cases.make_tempo(case, unique=unique, epsrel=1e-10).compute(
                     cases.end_time(case), progress_type="silent").states
             else:
-                pt = cases.make_pt(case, epsrel=1e-10)
+                pt = cases.make_pt(case, unique=unique, epsrel=1e-10)
                 states = oqupy.compute_dynamics(case["system"], initial_state=case["rho0"],
                                                 process_tensor=pt, start_time=case["start"],
                                                 progress_type="silent").states
@@ -327,8 +341,9 @@ def search(res):
                 want = v @ want_e @ v.conj().T
                 err = np.abs(np.array(states[k]) - want).max()
                 if err > 1e-5:
-                    res.fail("independent-boson:%s" % api,
-                             {"api": api, "case": case["desc"], "step": k, "difference": err})
+                    res.fail("independent-boson:%s%s" % (api, ":unique" if unique else ""),
+                             {"api": api, "unique": unique, "case": case["desc"], "step": k,
+                              "difference": err})
                     break
 
 
